@@ -140,7 +140,9 @@ func (g *gen) random(id int) {
 }
 
 // scenario k: 1 = kill a blobber that holds data, replace it, close after expiry; 2 = kill a blobber twice, try
-// to close after expiry; 3 = the delegate shuts its blobber down and empties both stake pool nodes.
+// to close after expiry; 3 = the delegate shuts its blobber down and empties both stake pool nodes; 4 = free-storage
+// markers out of nonce order; 5 = exactly funded tiny writes; 6 = assigner re-registrations between redemptions;
+// 7 = challenges passed after failed / expired ones under different blobber_slash settings.
 func (g *gen) scenario(id, k int) {
 	g.start(id, "scenario-"+itoa(k))
 	w := g.w
@@ -177,7 +179,7 @@ func (g *gen) scenario(id, k int) {
 			perm := g.r.Perm(len(g.blobbers))
 			bs := []*prov{g.blobbers[perm[0]], g.blobbers[perm[1]], g.blobbers[perm[2]]}
 			in := g.freeMarkerInput(as, as.key, rcp, 0.00001, nonce, bs, false)
-			g.do(rcp, "free_allocation_request", in, 0, opInfo{variant: variant, fmAssigner: as.name, fmRecipient: rcp.ID, fmTokens: 100000, fmNonce: nonce, fmSig: true})
+			g.do(rcp, "free_allocation_request", in, 0, opInfo{variant: variant, fmAssigner: as.name, fmRecipient: rcp.ID, fmTokens: 100000, fmNonce: nonce, fmSig: true, fmSigner: as.key})
 		}
 		base := int64(g.traceID) * 1000
 		order := []int64{base + 5, base + 3, base + 9, base + 1}
@@ -222,6 +224,75 @@ func (g *gen) scenario(id, k int) {
 				g.nextBlock(1, 1)
 			}
 		}
+	case 6:
+		// an assigner is re-registered (add_free_storage_assigner for an existing name) between redemptions:
+		// limits raised, then lowered below what is already redeemed, then the signing key rotated. What was
+		// redeemed before a re-registration stays redeemed (replays), and a total limit below the redeemed
+		// amount admits no further grant.
+		as := g.assigners[0]
+		rcp := g.clients[1]
+		base := int64(g.traceID) * 1000
+		free := func(signer *world.Key, tokens float64, nonce int64, variant string, sigOK bool) {
+			perm := g.r.Perm(len(g.blobbers))
+			bs := []*prov{g.blobbers[perm[0]], g.blobbers[perm[1]], g.blobbers[perm[2]]}
+			in := g.freeMarkerInput(as, signer, rcp, tokens, nonce, bs, false)
+			g.do(rcp, "free_allocation_request", in, 0, opInfo{variant: variant, fmAssigner: as.name, fmRecipient: rcp.ID,
+				fmTokens: uint64(tokens*1e10 + 0.5), fmNonce: nonce, fmSig: sigOK, fmSigner: signer})
+		}
+		replayAll := func(variant string) {
+			for _, d := range append([]doneMarker{}, g.fmDone...) {
+				op := d.op
+				op.variant = variant
+				op.fmSig = d.signer == g.registeredKey(as)
+				g.do(d.from, "free_allocation_request", d.in, 0, op)
+			}
+		}
+		free(as.key, 0.00001, base+7, "valid", true)
+		g.nextBlock(10, 1)
+		free(as.key, 0.00002, base+2, "valid", true)
+		g.nextBlock(10, 1)
+		g.reassign(w.Owner, as, 0.00003, 0.00009, as.key, "raise")
+		replayAll("replay-same-rereg")
+		g.nextBlock(10, 1)
+		free(as.key, 0.00001, base+7, "replay-rereg", true) // new marker, nonce already used
+		free(as.key, 0.00001, base+3, "valid", true)
+		g.nextBlock(10, 1)
+		g.reassign(w.Owner, as, 0.00003, 0.00002, as.key, "lower-below-redeemed")
+		free(as.key, 0.00001, base+4, "valid-lowered", true)
+		free(as.key, 0.00002, base+5, "valid-lowered", true)
+		replayAll("replay-same-rereg")
+		g.nextBlock(10, 1)
+		g.reassign(g.clients[2], as, 0.00003, 0.0001, as.key, "raise-stranger")
+		g.reassign(w.Owner, as, 0.00003, 0.0001, g.spareKey, "raise-rotate")
+		free(as.key, 0.00001, base+6, "valid-otherkey", false) // signed with the key that is no longer registered
+		free(g.spareKey, 0.00001, base+6, "valid", true)
+		free(g.spareKey, 0.00001, base+2, "replay-rereg", true)
+		replayAll("replay-same-rereg")
+	case 7:
+		// a challenge that passes after the same blobber failed one (by its tickets, then by letting one expire) is
+		// penalised first: value back to the write pool, the blobber's stake slashed. Played with stake slashing
+		// switched off (blobber_slash 0), with a slash that rounds to zero, and with the default.
+		for _, slash := range []string{"0", "0.000001", "0.1"} {
+			g.do(w.Owner, "update_settings", map[string]interface{}{"fields": map[string]string{"blobber_slash": slash}}, 0, opInfo{variant: "slash-" + slash})
+			g.do(g.clients[2], "commit_settings_changes", map[string]interface{}{}, 0, opInfo{variant: "commit"})
+			for _, how := range []string{"fail", "expire"} {
+				oc := g.challengeOn(a1, nil, 12)
+				if oc == nil {
+					break
+				}
+				b := g.byID[oc.ch.BlobberID]
+				if how == "fail" {
+					g.respond(oc, false, "fail")
+				} else {
+					g.nextBlock(30, 7) // past max_challenge_completion_rounds
+				}
+				if oc = g.challengeOn(a1, b, 16); oc == nil {
+					break
+				}
+				g.respond(oc, true, "pass-after-"+how)
+				g.nextBlock(20, 1)
+			}
+		}
 	case 3:
 		b := g.blobbers[3] // serves no allocation
 		g.do(b.delegate, "shutdown_blobber", map[string]interface{}{"provider_id": b.key.ID}, 0, opInfo{variant: "delegate", tblob: b.key.ID})
@@ -230,6 +301,43 @@ func (g *gen) scenario(id, k int) {
 		g.do(b.delegate, "stake_pool_unlock", map[string]interface{}{"provider_type": 3, "provider_id": b.key.ID}, 0, opInfo{variant: "unlock", tblob: b.key.ID})
 	}
 	w.EndBlock()
+}
+
+// challengeOn generates challenges (a new block for each attempt) until allocation a has an open, unexpired
+// challenge (for blobber b, if given); nil if none came up within max attempts.
+func (g *gen) challengeOn(a *allocInfo, b *prov, max int) *openCh {
+	for i := 0; i < max; i++ {
+		g.nextBlock(5, 1)
+		g.do(g.w.Miners[0], "generate_challenge", map[string]interface{}{"round": g.w.Cur.Round}, 0, opInfo{variant: "gen"})
+		var best *openCh
+		for _, oc := range g.openChallenges() {
+			oc := oc
+			if oc.a.id != a.id || oc.ch.Round+6 <= g.w.Cur.Round || (b != nil && oc.ch.BlobberID != b.key.ID) {
+				continue
+			}
+			if best == nil || oc.ch.Created > best.ch.Created {
+				best = &oc
+			}
+		}
+		if best != nil {
+			return best
+		}
+	}
+	return nil
+}
+
+// respond answers an open challenge with all tickets passing or all failing.
+func (g *gen) respond(oc *openCh, pass bool, variant string) {
+	b := g.byID[oc.ch.BlobberID]
+	if b == nil {
+		return
+	}
+	verdicts := make([]bool, len(oc.ch.Validators))
+	for i := range verdicts {
+		verdicts[i] = pass
+	}
+	in := g.challengeResponseInput(&oc.ch, verdicts, int64(g.w.Now), false)
+	g.do(b.key, "challenge_response", in, 0, opInfo{variant: variant, target: oc.a.id, tblob: b.key.ID})
 }
 
 // start forks the base block and opens trace `id`.
@@ -242,6 +350,7 @@ func (g *gen) start(id int, kind string) {
 	g.readKeys, g.readKeySet = nil, map[string]bool{}
 	g.lastRM = map[string]lastMarker{}
 	g.nonceSeq = 0
+	g.fmDone, g.reregd = nil, map[string]bool{}
 	g.t0 = w.Now
 	g.round0 = w.Cur.Round
 	g.rc.TraceID = id - 1
@@ -286,6 +395,7 @@ func (g *gen) step() {
 		{8, g.stepRead}, {4, g.stepReadPool}, {4, g.stepWritePoolLock},
 		{5, g.stepNewAlloc}, {7, g.stepFree}, {4, g.stepHealth}, {4, g.stepFreshLife},
 		{4, g.stepBlobberSettings}, {3, g.stepCollect}, {3, g.stepStake}, {3, g.stepReprice},
+		{4, g.stepReassign}, {2, g.stepSlashSetting},
 	}
 	if g.killOK {
 		acts = append(acts, act{6, g.stepKill})
@@ -813,11 +923,50 @@ func (g *gen) stepNewAlloc() {
 	g.do(owner, "new_allocation_request", g.newAllocInput(owner, data, parity, size, bs), value, opInfo{variant: variant})
 }
 
+// assignerState: the assigner's node in the last snapshot (nil if the driver does not know the name).
+func (g *gen) assignerState(name string) *storagesc.VerifStorageAssigner {
+	for i := range g.prev.Assigners {
+		if g.prev.Assigners[i].ID == name {
+			return &g.prev.Assigners[i]
+		}
+	}
+	return nil
+}
+
+// registeredKey: the signing key the contract holds for the assigner right now (nil: not registered).
+func (g *gen) registeredKey(as *assigner) *world.Key {
+	sa := g.assignerState(as.name)
+	if sa == nil || !sa.Present {
+		return nil
+	}
+	for _, k := range []*world.Key{as.key, g.spareKey} {
+		if k.Pub == sa.PublicKey {
+			return k
+		}
+	}
+	return nil
+}
+
+// otherKey: the assigner key that is NOT k (base key <-> spare key).
+func (g *gen) otherKey(as *assigner, k *world.Key) *world.Key {
+	if k == as.key {
+		return g.spareKey
+	}
+	return as.key
+}
+
 func (g *gen) stepFree() {
 	as := g.assigners[g.r.Intn(len(g.assigners))]
+	if g.registeredKey(as) == nil && !g.chance(15) {
+		as = g.assigners[g.r.Intn(2)] // the two assigners of the base block
+	}
 	recipient := g.clients[g.r.Intn(3)]
 	from := recipient
-	signer := as.key
+	reg := g.registeredKey(as)
+	signer := reg
+	if signer == nil {
+		signer = as.key
+	}
 	tokens := []float64{0.00001, 0.00001, 0.00002, 0.00003, 0.00004, 0.000004}[g.r.Intn(6)]
 	g.nonceSeq++
 	nonce := int64(g.traceID)*1000 + g.nonceSeq
@@ -826,13 +975,36 @@ func (g *gen) stepFree() {
 		nonce = int64(g.traceID)*1000 + 999 - g.nonceSeq
 	}
 	variant := "valid"
-	sigOK := true
+	sigOK := reg != nil
+	if reg == nil {
+		variant = "unregistered"
+	}
 	tamper := false
-	// replay a nonce already redeemed with this assigner
-	for _, sa := range g.prev.Assigners {
-		if sa.ID == as.name && len(sa.Nonces) > 0 && g.chance(25) {
-			nonce, variant = sa.Nonces[g.r.Intn(len(sa.Nonces))], "replay"
+	// replay a marker this trace has already redeemed with this assigner. The driver remembers them itself: what
+	// it presents again must not depend on what the contract still remembers (after a re-registration, say)
+	var done []doneMarker
+	for _, d := range g.fmDone {
+		if d.op.fmAssigner == as.name {
+			done = append(done, d)
 		}
+	}
+	if len(done) > 0 && g.chance(25+20*b2i(g.reregd[as.name])) {
+		d := done[g.r.Intn(len(done))]
+		sfx := ""
+		if g.reregd[as.name] {
+			sfx = "-rereg"
+		}
+		if g.chance(50) { // the very same marker, bit by bit, from the same caller
+			op := d.op
+			op.variant = "replay-same" + sfx
+			op.fmSig = reg != nil && d.signer == reg
+			g.do(d.from, "free_allocation_request", d.in, 0, op)
+			return
+		}
+		nonce, variant = d.op.fmNonce, "replay"+sfx // a freshly signed marker that reuses the nonce
+	}
+	if sa := g.assignerState(as.name); variant == "valid" && sa != nil && sa.Redeemed > sa.TotLimit {
+		variant = "valid-lowered" // the total limit was lowered below what is already redeemed
 	}
 	switch x := g.r.Intn(100); {
 	case x < 8:
@@ -840,12 +1012,15 @@ func (g *gen) stepFree() {
 	case x < 14:
 		signer, sigOK, variant = g.clients[3], false, variant+"-forged"
 	case x < 18:
-		signer, sigOK, variant = g.assigners[(indexOfA(g.assigners, as)+1)%len(g.assigners)].key, false, variant+"-otherassigner"
+		signer, sigOK, variant = g.assigners[(indexOfA(g.assigners, as)+1)%2].key, false, variant+"-otherassigner"
 	case x < 22:
 		tamper, sigOK, variant = true, false, variant+"-tampered"
+	case x < 30 && reg != nil && g.reregd[as.name]:
+		// the assigner's other key: the one it was registered with before a key rotation (or never)
+		signer, sigOK, variant = g.otherKey(as, reg), false, variant+"-otherkey"
 	}
 	if len(g.allocs) >= 5 { // keep the projection small: only failing requests from now on
-		if sigOK && from == recipient && variant == "valid" {
+		if sigOK && from == recipient && (variant == "valid" || variant == "valid-lowered") {
 			signer, sigOK, variant = g.clients[3], false, "valid-forged"
 		}
 	}
@@ -856,7 +1031,76 @@ func (g *gen) stepFree() {
 	if tamper {
 		units *= 2
 	}
-	g.do(from, "free_allocation_request", in, 0, opInfo{variant: variant, fmAssigner: as.name, fmRecipient: recipient.ID, fmTokens: units, fmNonce: nonce, fmSig: sigOK})
+	g.do(from, "free_allocation_request", in, 0, opInfo{variant: variant, fmAssigner: as.name, fmRecipient: recipient.ID, fmTokens: units, fmNonce: nonce, fmSig: sigOK, fmSigner: signer})
+}
+
+func b2i(b bool) int {
+	if b {
+		return 1
+	}
+	return 0
+}
+
+// reassign: add_free_storage_assigner for assigner `as` with the given limits (ZCN) and signing key.
+func (g *gen) reassign(from *world.Key, as *assigner, ind, tot float64, key *world.Key, variant string) world.Result {
+	existed := g.registeredKey(as) != nil || (g.assignerState(as.name) != nil && g.assignerState(as.name).Present)
+	res := g.do(from, "add_free_storage_assigner", map[string]interface{}{
+		"name": as.name, "public_key": key.Pub, "individual_limit": ind, "total_limit": tot}, 0,
+		opInfo{variant: variant, fmAssigner: as.name})
+	if res.Class == "ok" && existed {
+		g.reregd[as.name] = true
+	}
+	return res
+}
+
+// stepReassign: the contract owner (or, rarely, somebody else) calls add_free_storage_assigner for an assigner
+// that is already registered - other limits (raised, lowered, lowered below what is already redeemed), sometimes
+// another signing key - or registers fa3 for the first time. Redemptions and replays go on around it (stepFree).
+func (g *gen) stepReassign() {
+	as := g.assigners[g.r.Intn(len(g.assigners))]
+	sa := g.assignerState(as.name)
+	ind := []float64{0.00001, 0.00002, 0.00003, 0.00005}[g.r.Intn(4)]
+	tot := []float64{0.00002, 0.00004, 0.00007, 0.0001}[g.r.Intn(4)]
+	variant := "limits"
+	key := g.registeredKey(as)
+	if key == nil {
+		key, variant = as.key, "new"
+	}
+	if sa != nil && sa.Present && sa.Redeemed > 0 && g.chance(45) {
+		// wind the assigner down: a total limit below what it has already redeemed
+		d := g.pickU(1, 100000, sa.Redeemed/2, sa.Redeemed)
+		if d > sa.Redeemed {
+			d = sa.Redeemed
+		}
+		low := sa.Redeemed - d
+		tot, variant = float64(low)/1e10, "lower-below-redeemed"
+	} else if g.chance(10) {
+		tot, variant = 20000, variant+"-abovemax" // above max_total_free_allocation
+	}
+	if variant != "new" && g.chance(15) {
+		key, variant = g.otherKey(as, key), variant+"-rotate"
+	}
+	from := g.w.Owner
+	if g.chance(12) {
+		from, variant = g.clients[2], variant+"-stranger"
+	}
+	g.reassign(from, as, ind, tot, key, variant)
+	if g.chance(50) {
+		g.stepFree()
+	}
+}
+
+// stepSlashSetting: the contract owner changes storagesc.blobber_slash (0 = stake slashing off, tiny, default) and
+// the recorded change is committed; challenges that pass after a failed / expired one are then penalised with
+// no, a rounded-to-zero or an ordinary stake slash.
+func (g *gen) stepSlashSetting() {
+	v := []string{"0", "0", "0.000001", "0.1", "0.5"}[g.r.Intn(5)]
+	from, variant := g.w.Owner, "slash-"+v
+	if g.chance(10) {
+		from, variant = g.clients[2], variant+"-stranger"
+	}
+	g.do(from, "update_settings", map[string]interface{}{"fields": map[string]string{"blobber_slash": v}}, 0, opInfo{variant: variant})
+	g.do(g.clients[g.r.Intn(3)], "commit_settings_changes", map[string]interface{}{}, 0, opInfo{variant: "commit"})
 }
 
 func indexOf(ks []*world.Key, k *world.Key) int {
